@@ -278,6 +278,18 @@ var c16JSONValues = []string{`null`, `{}`, `[]`, `""`, `"x"`, `0`, `-1`, `200`, 
 	`{"K":["v"],"K":["w"]}`, `{"":[""]}`, `[["v"]]`, `{"K":{"L":["v"]}}`, `"DQo="`, `"!!!"`, `"2006-01-02T15:04:05Z"`, `"2006-01-02T15:04:05.999999999+14:00"`, `"0000-00-00T00:00:00Z"`, `"GET"`, `"http://h.test/"`, `"://"`,
 	`"\ud800"`, `"\u0000"`, `{"K":["v"]`, `[`, `{"a":`, strings.Repeat("[", 200) + strings.Repeat("]", 200)}
 
+// what may follow a complete JSON value on its line (with and without the line's end): runs of bytes
+// that are not UTF-8, of exactly and around the lengths error messages get abbreviated to
+var c16Trailers = func() []string {
+	var out []string
+	for _, b := range []string{"\xff", "\x80", "\xc0", "\xe2\x82", "x", " ", "}"} {
+		for _, n := range []int{1, 63, 64, 65, 70, 300} {
+			out = append(out, strings.Repeat(b, n), strings.Repeat(b, n)+"\n", "{}"+strings.Repeat(b, n)+"\n", "null"+strings.Repeat(b, n)+"\n")
+		}
+	}
+	return out
+}()
+
 func c16Grammar(t *rapid.T, parser string) []byte {
 	var b strings.Builder
 	switch parser {
@@ -330,6 +342,9 @@ func c16Grammar(t *rapid.T, parser string) []byte {
 				b.WriteString(rapid.SampledFrom(c16JSONValues).Draw(t, l+".v"))
 			}
 			b.WriteString(rapid.SampledFrom([]string{"}\n", "}\n", "}", "}}\n", "\n", "} \n"}).Draw(t, fmt.Sprintf("end%d", i)))
+			if rapid.IntRange(0, 5).Draw(t, fmt.Sprintf("trail%d", i)) == 0 {
+				b.WriteString(rapid.SampledFrom(c16Trailers).Draw(t, fmt.Sprintf("trailer%d", i)))
+			}
 		}
 	case "targets-json":
 		keys := []string{"method", "url", "body", "header", "header", "header", "Method", "headers", "x", ""}
@@ -355,11 +370,32 @@ func c16Grammar(t *rapid.T, parser string) []byte {
 				b.WriteString(rapid.SampledFrom(c16JSONValues).Draw(t, l+".v"))
 			}
 			b.WriteString(rapid.SampledFrom([]string{"}\n", "}\n", "}", "}}\n", "\n", "]\n"}).Draw(t, fmt.Sprintf("end%d", i)))
+			if rapid.IntRange(0, 5).Draw(t, fmt.Sprintf("trail%d", i)) == 0 {
+				b.WriteString(rapid.SampledFrom(c16Trailers).Draw(t, fmt.Sprintf("trailer%d", i)))
+			}
 		}
 	case "targets-http":
 		pool := []string{"GET http://h.test/", "POST http://h.test/p?q=1", "GET", "GET  http://h.test/", "get http://h.test/", "GET /relative", "GET http://h.test/ extra", "GET http://[::1", "G\x00T http://h.test/",
 			"X-H: v", "X-H:v", "X-H:", ": v", "NoColon", " X-H: v", "X-H : v", "X-H: v: w", "X-H: " + strings.Repeat("v", 5000), "é: ü", "@/etc/hostname", "@", "@ ", "@/nonexistent/x", "@@", " @/etc/hostname",
+			strings.Repeat("x", 4095), strings.Repeat("x", 4096), strings.Repeat("x", 4097), strings.Repeat("x", 8192), "X-H: " + strings.Repeat("v", 4091), "X-H: " + strings.Repeat("v", 8187), "# " + strings.Repeat("c", 4094),
+			"GET http://h.test/" + strings.Repeat("p", 4078), strings.Repeat("x", 65536), strings.Repeat("x", 65535),
 			"", " ", "\t", "# comment", " # indented comment", "#", "\t#@/etc/hostname", "#GET http://h.test/", "\r", "GET http://h.test/\r", "\x00", strings.Repeat("x", 70000)}
+		if rapid.Bool().Draw(t, "structured") {
+			// well-formed targets, the last one's header block interrupted by one odd line
+			for i, n := 0, rapid.IntRange(1, 3).Draw(t, "ntargets"); i < n; i++ {
+				fmt.Fprintf(&b, "GET http://h.test/%d\n", i)
+				for j, nh := 0, rapid.IntRange(0, 2).Draw(t, fmt.Sprintf("nh%d", i)); j < nh; j++ {
+					fmt.Fprintf(&b, "X-H%d: v\n", j)
+				}
+				if i == n-1 {
+					b.WriteString(rapid.SampledFrom(pool).Draw(t, "odd"))
+					b.WriteString(rapid.SampledFrom([]string{"\n", "", "\nX-After: v\n\n"}).Draw(t, "afterodd"))
+				} else {
+					b.WriteString("\n")
+				}
+			}
+			return []byte(b.String())
+		}
 		for i, n := 0, rapid.IntRange(1, 12).Draw(t, "nlines"); i < n; i++ {
 			b.WriteString(rapid.SampledFrom(pool).Draw(t, fmt.Sprintf("l%d", i)))
 			if i < n-1 || rapid.Bool().Draw(t, "final") {
